@@ -140,8 +140,10 @@ def b1_b2(repo, res, canon, pc, logic):
         ends = end != 'back'
         if any(e.kind == 'exit' and e.extra == 'raise' for e in seg):
             continue
-        if ends and len(apps) != 1 and not (end == 'exit'):
-            okst = False
+        if ends and p.exit != 'raise' and not any(_efs for _e, _efs in effects_along(canon, seg)):
+            continue          # the loop's exit test (`while True: if not cond: break`), not a step
+        if ends and len(apps) != 1 and p.exit != 'raise':
+            okst = False      # the last step (the loop is left) must store the observation, once
         if not ends and apps:
             okst = False
     (res.ok if okst else res.bad)('C07.B2', f, lp, 'the observation is stored in the hot tier exactly when its last step is deposited',
